@@ -85,8 +85,8 @@ WALK = {
          dict(MinKids=1, MaxKids=1, MaxAtts=0, LexCap=2, XsiOn=True, RetypeTo={'decimal', 'string'})),
         ('attrs', dict(KidMenu={kd('sc', 0, 1)},
                        AttrMenu={ad('a', 'date'), ad('a', 'int', 'dflt'), ad('c', 'boolean', 'dflt'), ad('c', 'ilist', 'req')}),
-         dict(MinKids=1, MaxKids=1, MaxAtts=2, LexCap=2, XsiOn=False, RetypeTo={'string'})),
-        ('seq3', dict(KidMenu={kd('int', 1, 1, False, True), kd('int', 0, 1), kd('grp', 1, 1), kd('boolean', 1, 2)},
+         dict(MinKids=1, MaxKids=1, MaxAtts=2, LexCap=1, XsiOn=False, RetypeTo={'string'})),
+        ('seq3', dict(KidMenu={kd('int', 1, 1, False, True), kd('int', 0, 1), kd('grp', 1, 1)},
                       AttrMenu=set()),
          dict(MinKids=3, MaxKids=3, MaxAtts=0, LexCap=1, XsiOn=False, RetypeTo={'string'})),
     ],
@@ -115,7 +115,7 @@ SELECT = {
                      AttrMenu={ad('a', 'date'), ad('c', 'boolean', 'dflt')}),
          dict(MinKids=0, MaxKids=2, MaxAtts=2, LexCap=1, XsiOn=False, Axes=set(AXES_Q), Tests=set(TESTS), MaxSteps=2,
               Kinds=XKINDS, RootCfg='R2'),
-         [1, 2, 3, 4, 5, 6, 7]),
+         [2, 3, 4, 5]),
     ],
     'thorough': [
         ('sel', dict(KidMenu={kd('date', 0, 2), kd('sc', 0, 1), kd('grp', 1, 1), kd('string', 1, 1), kd('grp', 0, 2)},
@@ -210,7 +210,8 @@ def xsd_text(S, sdef) -> str:
 class Doc:
     """The instance as a real tree, built node by node from Flatten(S, inst) (PSVI nodes skipped)."""
 
-    def __init__(self, f, lib: str):
+    def __init__(self, f, lib: str, materialise: bool = False):
+        """materialise=True writes the attributes the PSVI would add into the document itself"""
         if lib == 'etree':
             import xml.etree.ElementTree as mod
             mk = lambda tag: mod.Element(tag)   # noqa
@@ -229,7 +230,7 @@ class Doc:
                 self.paths[n] = '.'
             elif s in ('ratt_a', 'ratt_c'):
                 name = s[-1]
-                if not nd['dflt']:
+                if materialise or not nd['dflt']:
                     self.root.set(name, lex(nd['lx']))
                 self.obj[n] = (self.root, name)
                 self.paths[n] = '@' + name
@@ -441,6 +442,16 @@ def cmp_values(exp_seq, obs, classes) -> str | None:
     return None
 
 
+def probe_outcome(want, obs, classes) -> str | None:
+    """expected probe result of the spec ([k |-> err | empty | val, v]) vs observed -> None | outcome class"""
+    if want['k'] == 'err':
+        return None if (isinstance(obs, tuple) and obs[0] == 'err') else \
+            (f'{obs[0]}:{obs[1]}' if isinstance(obs, tuple) else 'value_instead_of_error')
+    if want['k'] == 'empty':
+        return None if obs == [] else (f'{obs[0]}:{obs[1]}' if isinstance(obs, tuple) else 'value_instead_of_empty')
+    return cmp_values((want['v'],), obs, classes)
+
+
 def type_tag(name) -> str:
     """node.type_name -> abstract type name"""
     if name is None:
@@ -544,8 +555,13 @@ def oracle_check(vec, S, xsd: str, version: str, doc: Doc, msgs: list) -> None:
 
 def node_features(vec, n, **kw) -> dict:
     nd, a = vec['f'][n - 1], vec['typed'][n - 1]
+    fl = flag_of(vec, n)
+    if fl in ('default', 'psvi-default') and nd['s'] == 'kid':
+        text = lex(vec['sdef']['kids'][nd['i'] - 1])
+    else:
+        text = lex(nd['lx'])
     d = dict(node=('attribute' if nd['k'] in ('xa', 'xc') else 'element'), source=nd['s'], annot=a['ty'],
-             flag=flag_of(vec, n), pos=nd['i'])
+             flag=fl, pos=nd['i'], text=text[:12])
     d.update(kw)
     return d
 
@@ -558,7 +574,7 @@ def check_fresh(vec, slot, S, xsd, version, lib, pv, doc: Doc, fails: list, stat
     ctx = XPathContext(doc.root, namespaces=NS, schema=proxy)
     nodes = find_nodes(ctx.root, doc)
     base = dict(mode='fresh', xsd=version, lib=lib, parser=pv)
-    case0 = dict(kind='fresh', xsd_text=xsd, xml=doc.xml(), version=version, lib=lib, parser=pv)
+    case0 = dict(kind='fresh', xsd_text=xsd, xml=doc.xml(), version=version, lib=lib, parser=pv, f=[dict(x) for x in vec['f']])
     for n, (nd, a) in enumerate(zip(vec['f'], vec['typed']), 1):
         if nd['k'] not in ('ea', 'eb', 'xa', 'xc'):
             continue
@@ -620,13 +636,8 @@ def check_fresh(vec, slot, S, xsd, version, lib, pv, doc: Doc, fails: list, stat
             for api in ((False, True) if use_select else (False,)):
                 obs = select_api(doc.root, expr, pv, proxy) if api else evaluate(expr, pv, proxy, ctx)
                 stats['evaluations'] += 1
-                if want['k'] == 'err':
-                    out = None if (isinstance(obs, tuple) and obs[0] == 'err') else \
-                        (f'{obs[0]}:{obs[1]}' if isinstance(obs, tuple) else 'value_instead_of_error')
-                elif want['k'] == 'empty':
-                    out = None if obs == [] else (f'{obs[0]}:{obs[1]}' if isinstance(obs, tuple) else 'value_instead_of_empty')
-                else:
-                    out = cmp_values((want['v'],), obs, classes)
+                out = probe_outcome(want, obs, classes)
+                if want['k'] == 'val':
                     stats['nontrivial'] += 1
                 if out:
                     fails.append((dict(base, probe=probe, outcome=out, api=('select' if api else 'token'),
@@ -646,7 +657,7 @@ def check_untyped(vec, lib, pv, doc: Doc, fails: list, stats: dict):
     nodes = find_nodes(ctx.root, doc)
     classes = {'untypedAtomic': dt.UntypedAtomic}
     base = dict(mode='fresh', xsd='none', lib=lib, parser=pv)
-    case0 = dict(kind='untyped', xml=doc.xml(), lib=lib, parser=pv)
+    case0 = dict(kind='untyped', xml=doc.xml(), lib=lib, parser=pv, f=[dict(x) for x in vec['f']])
     for n, (nd, a) in enumerate(zip(vec['f'], vec['untyped']), 1):
         if nd['k'] not in ('ea', 'eb', 'xa', 'xc'):
             continue
@@ -765,7 +776,8 @@ def replay_history(tid, trip, states, edges, init, lib, version, fails, stats):
             ety, aty = observe_state(ctx, doc, post, vec1)
             stats['evaluations'] += len(ety) + len(aty)
             actions = [list(x) for x in prefix[s]] + [[action, list(args)]]
-            case = dict(kind='history', xsd1=xsd[1], xsd2=xsd[2], xml=doc.xml(), version=version, lib=lib, actions=actions)
+            case = dict(kind='history', xsd1=xsd[1], xsd2=xsd[2], xml=doc.xml(), version=version, lib=lib, actions=actions,
+                        f=[dict(x) for x in vec1['f']])
             k = args[0] if action == 'SetSchema' else None
             feat = dict(mode='history', action=action, k=k, pre_ctx=pre['ctx'],
                         reapply_same_proxy=bool(action == 'SetSchema' and k != 0 and pre['tsch'] == k),
@@ -805,10 +817,8 @@ def replay_history(tid, trip, states, edges, init, lib, version, fails, stats):
                         cl = classes if cur else {'untypedAtomic': classes['untypedAtomic']}
                         out = cmp_values(a['tv'], tv, cl)
                         if out:
-                            fl = flag_of(vecs[cur], n) if cur else 'plain'
-                            fails.append((dict(feat, probe='typed_value', outcome=out, source=nd['s'], annot=a['ty'],
-                                               flag=fl, pos=nd['i'], node=('attribute' if nd['k'] in ('xa', 'xc') else 'element')),
-                                          case, a['tv'], repr(tv)))
+                            nf = node_features(vecs[cur], n) if cur else dict(source=nd['s'], annot=a['ty'], flag='plain')
+                            fails.append((dict(feat, probe='typed_value', outcome=out, **nf), case, a['tv'], repr(tv)))
                 if d not in prefix:
                     prefix[d] = prefix[s] + ((action, args),)
                     queue.append(d)
@@ -861,7 +871,8 @@ def walk_worker(job):
 # selection replay on the SchemaSelect graph
 
 def lx_path(path: str) -> str:
-    return re.sub(r'::(a|b)\b', r'::t:\1', path)
+    """libxml2 (XPath 1.0) has no default element namespace: element name tests get the prefix"""
+    return '/'.join(st if st.startswith('attribute::') else re.sub(r'::(a|b)$', r'::t:\1', st) for st in path.split('/'))
 
 
 def select_worker(job):
@@ -879,9 +890,13 @@ def select_worker(job):
         if sch.is_valid(docs['etree'].root, namespaces=NS) is not True:
             oracle.append(f'xmlschema rejects instance {docs["etree"].xml()}')
             return stats, fails, oracle, samples
+        has_dflt = any(nd['dflt'] for nd in f)
         ctxs = {}
-        for lib in docs:
-            ctxs[lib] = (XPathContext(docs[lib].root, namespaces=NS, schema=proxy), XPathContext(docs[lib].root, namespaces=NS))
+        for lib in ('etree', 'lxml'):
+            ctxs[lib] = [XPathContext(docs[lib].root, namespaces=NS, schema=proxy), XPathContext(docs[lib].root, namespaces=NS)]
+            if has_dflt:     # reference for the PSVI: the same document with the defaulted attributes written out
+                docs[lib + '+'] = Doc(f, lib, materialise=True)
+                ctxs[lib].append(XPathContext(docs[lib + '+'].root, namespaces=NS))
         prefix = {init: ''}
         queue = deque([init])
         while queue:
@@ -905,7 +920,8 @@ def select_worker(job):
                 libs = ('etree', 'lxml') if (tier == 'thorough' or (pid + stats['transitions']) % 8 == 0) else ('etree',)
                 for lib in libs:
                     for pv in (('2.0', '3.1') if tier == 'thorough' else (('3.1',) if stats['transitions'] % 2 else ('2.0',))):
-                        for with_schema, want in ((True, want_s), (False, want_p)):
+                        obs2 = {}
+                        for with_schema in (True, False):
                             ctx = ctxs[lib][0 if with_schema else 1]
                             tok = get_token(path, pv, proxy if with_schema else None)
                             if isinstance(tok, Exception):
@@ -916,30 +932,46 @@ def select_worker(job):
                                 except Exception as e:  # noqa
                                     obs = err_class(e)
                             stats['evaluations'] += 1
-                            if isinstance(obs, tuple):
-                                outcome = f'{obs[0]}:{obs[1]}'
-                            else:
-                                try:
-                                    so = sorted(obs)
-                                except TypeError:
-                                    so = None
-                                if so == want:
-                                    outcome = None if len(set(map(str, obs))) == len(obs) else 'dup'
-                                elif so is not None and set(so) < set(want):
-                                    outcome = 'missing'
-                                elif so is not None and set(so) > set(want):
-                                    outcome = 'extra'
-                                else:
-                                    outcome = 'wrong'
-                            if outcome:
-                                ok = False
-                                kinds = ','.join(sorted({f[n - 1]['k'] for n in states[s]['cur']}))
-                                fails.append((dict(mode='select', probe='select', with_schema=with_schema, axis=args[0], test=args[1],
-                                                   outcome=outcome, ctx_kinds=kinds, depth=states[s]['depth'],
-                                                   psvi_defaults=any(nd['dflt'] for nd in f), xsd=version, lib=lib, parser=pv),
-                                              dict(kind='select', xsd_text=xsd, xml=docs[lib].xml(), version=version, lib=lib,
-                                                   parser=pv, path=path, with_schema=with_schema, f=[dict(x) for x in f]),
-                                              want, repr(obs)))
+                            obs2[with_schema] = obs
+
+                        def srt(o):
+                            try:
+                                return sorted(o) if isinstance(o, list) else None
+                            except TypeError:
+                                return None
+                        base_ok = srt(obs2[False]) == want_p
+                        if not base_ok:
+                            # the schema-less evaluation itself departs from XDM/libxml2: that is property C01's
+                            # business; C20 still demands that the schema changes nothing (when it adds no PSVI node)
+                            stats['baseline_mismatch'] = stats.get('baseline_mismatch', 0) + 1
+                            ok = False
+                        outcome = None
+                        if not has_dflt:
+                            if obs2[True] != obs2[False]:
+                                outcome = 'differs_from_schemaless'
+                        else:
+                            tok = get_token(path, pv, None)
+                            try:
+                                ref = [docs[lib + '+'].node_id(x) for x in tok.select(copy(ctxs[lib][2]))]
+                            except Exception as e:  # noqa
+                                ref = err_class(e)
+                            stats['evaluations'] += 1
+                            if srt(ref) != want_s:
+                                ok = False      # C01's business again (path semantics on the materialised tree)
+                                stats['baseline_mismatch'] = stats.get('baseline_mismatch', 0) + 1
+                            if isinstance(obs2[True], tuple) or srt(obs2[True]) != srt(ref):
+                                outcome = 'differs_from_materialised_psvi'
+                                obs2[False] = ref
+                        if outcome:
+                            ok = False
+                            kinds = ','.join(sorted({f[n - 1]['k'] for n in states[s]['cur']}))
+                            fails.append((dict(mode='select', probe='select', axis=args[0], test=args[1],
+                                               outcome=outcome, ctx_kinds=kinds, depth=states[s]['depth'],
+                                               psvi_defaults=has_dflt, xsd=version, lib=lib, parser=pv),
+                                          dict(kind='select', xsd_text=xsd, xml=docs[lib].xml(), version=version, lib=lib,
+                                               parser=pv, path=path, f=[dict(x) for x in f], has_dflt=has_dflt),
+                                          dict(with_schema=want_s, without=want_p),
+                                          dict(with_schema=repr(obs2[True]), without=repr(obs2[False]))))
                 if ok and d not in prefix and states[d]['depth'] < 2:
                     prefix[d] = path
                     queue.append(d)
@@ -1100,6 +1132,7 @@ def run(chk: core.Check) -> None:
             chk.add('second_oracle_evaluations', stats['lx_evals'])
             chk.add('distinct_nontrivial', stats['nontrivial'])
             chk.add('select_pairs', stats['pairs'])
+            chk.add('select_baseline_mismatch_C01', stats.get('baseline_mismatch', 0))
             for s in samples:
                 chk.sample(s, cap=8)
             record(chk, fails)
@@ -1117,64 +1150,101 @@ def run(chk: core.Check) -> None:
 # ---------------------------------------------------------------------------------------
 
 def replay(rec: dict) -> int:
+    """re-run one recorded case on the working tree ($VERIF_REPO) and judge it like run() did"""
     core.setup_repo_path()
     import xmlschema  # noqa
-    import xml.etree.ElementTree as ET
-    import lxml.etree as LX
     from elementpath import XPathContext, get_node_tree
-    case = rec['case']
-    lib = LX if case.get('lib') == 'lxml' else ET
-    root = lib.fromstring(case['xml'])
-    print('xml      :', case['xml'])
-    print('expected :', rec['expected'])
+    case, exp, feat = rec['case'], rec['expected'], rec['features']
+    f = case['f']
+    lib = case.get('lib', 'etree')
+    doc = Doc(f, lib)
+    pv = case.get('parser', '3.1')
+    print('xml      :', doc.xml())
+    print('expected :', exp)
+    bad = None
     if case['kind'] == 'history':
-        print('xsd1     :', case['xsd1'])
-        print('xsd2     :', case['xsd2'])
-        proxies = {0: None, 1: get_schema(case['xsd1'], case['version'])[1], 2: get_schema(case['xsd2'], case['version'])[1]}
-        tree = get_node_tree(root, namespaces=NS)
-        ctx = XPathContext(tree, namespaces=NS)
-        elems = list(root.iter())
+        print('xsd 1    :', case['xsd1'])
+        print('xsd 2    :', case['xsd2'])
+        version = case['version']
+        proxies = {0: None, 1: get_schema(case['xsd1'], version)[1], 2: get_schema(case['xsd2'], version)[1]}
+        ctx = XPathContext(get_node_tree(doc.root, namespaces=NS), namespaces=NS)
         for action, args in case['actions']:
             print('action   :', action, args)
-            if action == 'SetSchema':
-                ctx.schema = proxies[args[0]]
-            else:
-                [n.attributes for n in ctx.root.iter_descendants() if hasattr(n, 'attributes')][:0]
-        obs = {}
-        for n in ctx.root.iter_descendants():
-            if hasattr(n, 'attributes'):
-                obs[n.name] = (n.type_name, repr(n.typed_value) if n.xsd_type is None or not n.xsd_type.is_element_only() else None)
-        print('observed :', obs)
-        print('(compare with the expected element types above; VIOLATION if they differ)')
-        exp = rec['expected']
-        bad = isinstance(exp, dict) and any(v not in ('none', 'root') for v in exp.values()) and \
-            all(t[0] and t[0].endswith('untyped') for t in obs.values())
-        if bad:
-            print('VIOLATION property=C20 replay=(replayed)')
-            return 1
-        return 0
-    if case['kind'] == 'untyped':
-        proxy = None
-    else:
+            apply_action(ctx, doc, proxies, action, args)
+        nodes = find_nodes(ctx.root, doc)
+        obs = {n: observe_node(nd) for n, nd in sorted(nodes.items())}
+        print('observed :', {n: (o[0], repr(o[2])) for n, o in obs.items()})
+        if feat['probe'] == 'type_name':
+            want = {int(k): v for k, v in exp.items()}
+            got = {n: ('none' if o[0] == 'untyped' else o[0]) for n, o in obs.items() if n in want}
+            bad = got != want
+        elif feat['probe'] == 'attribute_list':
+            want = {int(k): v for k, v in exp.items()}
+            got = {n: ('none' if obs[n][0] == 'untypedAtomic' else obs[n][0]) if n in obs else 'absent' for n in want}
+            bad = got != want
+        else:
+            # final_type_name / typed_value of one node: the node is the one whose source/pos is in the features
+            cl = value_classes(version)
+            for n, nd in enumerate(f, 1):
+                if nd['s'] == feat.get('source') and nd['i'] == feat.get('pos', nd['i']) and n in obs:
+                    if isinstance(exp, str):
+                        bad = obs[n][0] != exp
+                    else:
+                        bad = cmp_values(exp, obs[n][2], cl) is not None
+                    if bad:
+                        break
+    elif case['kind'] == 'select':
+        version = case['version']
+        proxy = get_schema(case['xsd_text'], version)[1]
         print('xsd      :', case['xsd_text'])
-        proxy = get_schema(case['xsd_text'], case['version'])[1]
-    pv = case.get('parser', '3.1')
-    if case['kind'] == 'select':
-        ctx = XPathContext(root, namespaces=NS, schema=proxy if case['with_schema'] else None)
-        tok = get_token(case['path'], pv, proxy if case['with_schema'] else None)
-        obs = [(x.node_kind, getattr(x, 'name', None)) for x in tok.select(ctx)] if not isinstance(tok, Exception) else repr(tok)
-        print('path     :', case['path'], '(with schema)' if case['with_schema'] else '(without schema)')
-        print('observed :', obs)
-        return 1 if isinstance(rec['expected'], list) and len(obs) != len(rec['expected']) else 0
-    expr = case.get('expr') or (f'data({case["path"]})' if case.get('probe') in ('typed_value', 'data') else case.get('path'))
-    obs = select_api(root, expr, pv, proxy)
-    print('expr     :', expr)
-    print('observed :', repr(obs))
-    exp = rec['expected']
-    if isinstance(exp, bool):
-        if obs != [exp]:
-            print('VIOLATION property=C20 replay=(replayed)')
-            return 1
-        return 0
-    print('(typed value / probe: compare by hand with the expected abstract value above)')
-    return 1 if isinstance(obs, tuple) else 0
+        print('path     :', case['path'])
+        res = {}
+        for key, d, px in (('with_schema', doc, proxy), ('without', Doc(f, lib, materialise=case.get('has_dflt', False)), None)):
+            ctx = XPathContext(d.root, namespaces=NS, schema=px)
+            tok = get_token(case['path'], pv, px)
+            try:
+                res[key] = sorted(d.node_id(x) for x in tok.select(ctx))
+            except Exception as e:  # noqa
+                res[key] = err_class(e)
+        print('observed :', res, '(second line: schema-less evaluation', 'of the document with the PSVI attributes written out)'
+              if case.get('has_dflt') else 'of the same document)')
+        bad = res['with_schema'] != res['without']
+    else:
+        if case['kind'] == 'untyped':
+            proxy, version = None, '1.0'
+        else:
+            version = case['version']
+            print('xsd      :', case['xsd_text'])
+            proxy = get_schema(case['xsd_text'], version)[1]
+        cl = value_classes(version)
+        ctx = XPathContext(doc.root, namespaces=NS, schema=proxy)
+        probe = feat['probe']
+        if 'expr' in case:
+            obs = select_api(doc.root, case['expr'], pv, proxy) if case.get('api') == 'select' else \
+                evaluate(case['expr'], pv, proxy, ctx)
+            print('expr     :', case['expr'])
+            print('observed :', repr(obs))
+            if probe == 'instance_of':
+                bad = obs != [exp]
+            elif probe == 'data':
+                bad = cmp_values(exp, obs, cl) is not None
+            else:
+                bad = probe_outcome(exp, obs, cl) is not None
+        else:
+            tok = get_token(case['path'], pv, proxy)
+            nodes = list(tok.select(copy(ctx)))
+            print('path     :', case['path'])
+            if probe in ('node', 'psvi_without_schema'):
+                obs = 'present' if nodes else 'absent'
+                print('observed :', obs)
+                bad = obs != exp
+            else:
+                tn, nilled, tv = observe_node(nodes[0]) if nodes else (None, None, None)
+                print('observed : type_name', tn, 'nilled', nilled, 'typed_value', repr(tv))
+                bad = (tn != exp) if probe == 'type_name' else (nilled != exp) if probe == 'nilled' else \
+                    (cmp_values(exp, tv, cl) is not None)
+    if bad:
+        print('VIOLATION property=C20 replay=(replayed)')
+        return 1
+    print('no disagreement on this tree')
+    return 0
